@@ -218,6 +218,13 @@ func cmdCheck(args []string) int {
 		}
 		return r.exit
 	}
+	if len(r.violations) > 6 {
+		// clearly broken: report the first pass as it is
+		for _, l := range r.lines {
+			fmt.Println(l)
+		}
+		return r.exit
+	}
 	o.quiet = false
 	timeScale = 2
 	if o.timeout == 0 {
@@ -441,6 +448,10 @@ func runCheck(o checkOpts) *checkResult {
 		if ob.Verdict == "undecided" && !ob.WantSat && !ob.Helper && !ob.expectFail {
 			undec = append(undec, ob)
 		}
+	}
+	if len(undec) > 8 {
+		// many undecided obligations: the code no longer matches its contracts; the long retry would only cost time
+		undec = undec[:8]
 	}
 	if len(undec) > 0 && o.timeout < 90 {
 		// few, long queries: less parallelism so that they do not starve each other
